@@ -200,9 +200,13 @@ def h_divided(max_payload):
             stream = []
             want = []
             for i, (n, nl) in enumerate(shape):
-                p = [ctx.sym_int("p%d_%d" % (i, j), "u8") for j in range(n)]
-                for x in p:
-                    ctx.add(z3.And(x.z() != 10, x.z() != ord("~")))      # a payload line, not resembling the marker
+                if n > 16:
+                    # long lines are concrete text (no part of them may go missing however long they are)
+                    p = [SInt(ord("a") + (j * 7 + j // 26) % 26, "u8") for j in range(n)]
+                else:
+                    p = [ctx.sym_int("p%d_%d" % (i, j), "u8") for j in range(n)]
+                    for x in p:
+                        ctx.add(z3.And(x.z() != 10, x.z() != ord("~")))      # a payload line, not resembling the marker
                 body = []
                 if lookalike and i == 0:
                     # a whole output line that looks like a divider but carries another (symbolic) 4-char salt
@@ -260,11 +264,13 @@ def h_divided(max_payload):
     for ntests in (1, 2):
         for combo in itertools.product([(n, nl) for n in range(0, max_payload + 1) for nl in (True, False)], repeat=ntests):
             shapes.append(list(combo))
+    shapes += [[(n, nl)] for n in (60, 100, 200, 400) for nl in (False, True)] + [[(1, True), (200, False)], [(200, False), (1, False)]]
     inputs = [("payloads=%s" % (sh,), mk(sh)) for sh in shapes]
     inputs += [("look-alike divider line (foreign salt) then payloads=%s" % (sh,), mk(sh, True)) for sh in shapes if len(sh) == 1]
     return e2.Harness("divided_output_split", drive, inputs, post, native="iterate_divided_output", judge=judge,
                       describe="callback i receives exactly the bytes printed before divider i (payload with or without final newline) and its exit code",
-                      bound="1–2 test outputs of <= %d bytes each (no newline / '~' inside), dividers of the executor's own salt; "
+                      bound="1–2 test outputs of <= %d symbolic bytes each (no newline / '~' inside), and concrete lines of 60..400 bytes with / without final "
+                            "newline, dividers of the executor's own salt; "
                             "optionally preceded by an output line that is a divider with any other 4-letter salt" % max_payload)
 
 
